@@ -8,6 +8,7 @@ import gen_cube as G
 
 ID = "C02"
 LEAN_MODULES = ["CatiiProps.C02"]
+USES_TRANSLATOR = ['marginal_diff']   # Gen/DiffGen.lean: one pass of _compute_common_cells_from_marginal_diffs as data (tools/translate_diff.py)
 RULE = ("a 5- / 7-column dimension declaring 2^28 rows (the cube engages its own thread pool), block by block against set arithmetic; " "exhaustive: every list of 0..3 one-axis dims over N<=3 rows, values<2, every common; random: 0..4 dims, N<=40, "
         "extents 1..5, one/two/three-axis dims, commons frequent/rare/absent, explicit shapes padded beyond the data, "
         "extents at 255/256/257 and 65535/65536/65537 (<=2 dims). Observed on the real code: interactions, regions after "
